@@ -287,5 +287,35 @@ def lattices():
     return [lattice_schema(i, *a) for i, a in enumerate(out)]
 
 
+def sizes():
+    """D. sizes: enumerations whose items add up to 100 / 240 / 241 / 1000 / 5000 characters, selects with 2-60 members,
+    entities with 1-80 attributes (fixed name buffers in the generator)"""
+    out = []
+    k = 0
+    for n_items, width in ((4, 6), (12, 19), (12, 20), (13, 20), (40, 25), (150, 33), (3, 100)):
+        items = ['c%0*d' % (width - 1, i) for i in range(n_items)]
+        s = M.Schema('mz%d' % k, [M.TypeDef('big_enum', 'enum', items=items), M.TypeDef('tail_enum', 'enum', items=['aa', 'bb'])],
+                     [_ent('h', attrs=[('h_a', M.NAMED('big_enum')), ('h_b', M.NAMED('tail_enum'))])])
+        s.tags |= {'matrix:size', 'matrix:size enumeration items %d chars' % (n_items * (width + 1) - 1)}
+        s.matrix = ('size', 'enumeration', n_items, width)
+        out.append(s)
+        k += 1
+    for n_mem in (2, 12, 30, 60):
+        ents = [_ent('member_entity_number_%02d' % i, attrs=[('a%d' % i, M.INT())]) for i in range(n_mem)]
+        s = M.Schema('mz%d' % k, [M.TypeDef('big_select', 'select', members=[e.name for e in ents])],
+                     ents + [_ent('h', attrs=[('h_a', M.NAMED('big_select'))])])
+        s.tags |= {'matrix:size', 'matrix:size select members %d' % n_mem}
+        s.matrix = ('size', 'select', n_mem, 0)
+        out.append(s)
+        k += 1
+    for n_attr in (1, 20, 80):
+        s = M.Schema('mz%d' % k, [], [_ent('wide', attrs=[('attribute_with_a_long_name_%02d' % i, M.INT() if i % 2 else M.STR(), i % 3 == 0) for i in range(n_attr)])])
+        s.tags |= {'matrix:size', 'matrix:size entity attributes %d' % n_attr}
+        s.matrix = ('size', 'attributes', n_attr, 0)
+        out.append(s)
+        k += 1
+    return out
+
+
 def schemas():
-    return chains() + entities() + lattices()
+    return chains() + entities() + lattices() + sizes()
